@@ -62,14 +62,16 @@ type World struct {
 	// names of addresses for canonical output
 	names map[string]string
 	// extra denoms seen (mint receipts)
-	extraDenoms map[string]bool
-	LastEvents  []string
-	Keyed       bool
-	Real        bool // real block cycle and signed transactions (ante engine)
-	rcptSeen    map[string]bool
-	removed     map[int]stakingtypes.Validator // validators whose staking record was removed (setval ... x)
-	txCtx       *sdk.Context                   // set while the messages of an `atomic` transaction run
-	named       []string                       // "<tenant> <request id token>", the latest ones the history named
+	extraDenoms   map[string]bool
+	LastEvents    []string
+	Keyed         bool
+	Real          bool // real block cycle and signed transactions (ante engine)
+	rcptSeen      map[string]bool
+	unbondingNext bool
+	signerData    map[string][2]uint64           // account -> (sequence, number) as its holder knows them (ante engine)
+	removed       map[int]stakingtypes.Validator // validators whose staking record was removed (setval ... x)
+	txCtx         *sdk.Context                   // set while the messages of an `atomic` transaction run
+	named         []string                       // "<tenant> <request id token>", the latest ones the history named
 	// PermSeed != 0 perturbs nothing in the implementation (Go randomises map order itself); kept for symmetry
 }
 
@@ -693,7 +695,12 @@ func (w *World) exec(line string) Result {
 		return Result{Line: "ok " + h}
 	case "setoparams": // votePeriod threshold slashFraction slashWindow maxMiss
 		p := otypes.Params{VotePeriod: u64(f[1]), VoteThreshold: decTok(f[2]), SlashFraction: decTok(f[3]), SlashWindow: u64(f[4]), MaxMissCountPerSlashWindow: u64(f[5])}
-		if err := p.Validate(); err != nil {
+		// a governance proposal is checked key by key by the module's own validators. A value that is out of range on its own is handed to
+		// them (they must refuse it); a set whose values are fine one by one but do not fit together is not proposed at all.
+		half := sdk.NewDecWithPrec(5, 1)
+		outOfRange := p.VotePeriod == 0 || p.VoteThreshold.LT(half) || p.VoteThreshold.GT(sdk.OneDec()) || p.SlashFraction.IsNegative() ||
+			p.SlashFraction.GT(sdk.OneDec()) || p.SlashWindow == 0 || p.MaxMissCountPerSlashWindow == 0
+		if err := p.Validate(); err != nil && !outOfRange {
 			return Result{Line: "err", Detail: err.Error()}
 		}
 		am := w.A.LegacyAmino()
@@ -743,6 +750,7 @@ func (w *World) exec(line string) Result {
 			w.removeVal(f[1])
 			return Result{Line: "ok"}
 		}
+		w.unbondingNext = f[3] == "2" // "2": not bonded, in its unbonding period
 		w.setVal(f[1], int64(u64(f[2])), f[3] == "1", f[4] == "1", f[5])
 		return Result{Line: "ok"}
 	case "atomic": // msg ;; msg ;; ... : one transaction of several messages, executed the way baseapp does (one branch, all or nothing)
@@ -836,9 +844,12 @@ func (w *World) setVal(tok string, power int64, bonded, jailed bool, probono str
 	val.Tokens = newTokens
 	if bonded {
 		val.Status = stakingtypes.Bonded
+	} else if w.unbondingNext {
+		val.Status = stakingtypes.Unbonding // left the active set, its unbonding period still running: not bonded
 	} else {
 		val.Status = stakingtypes.Unbonded
 	}
+	w.unbondingNext = false
 	val.Jailed = jailed
 	if probono == "-" {
 		val.Probono = false
